@@ -69,20 +69,51 @@ def forbidden_words():
     return bad
 
 
+PROJECT_HEADER = """-Q theories D42
+-Q proofs D42P
+-Q props D42Props
+-Q generated D42Gen
+-arg -w -arg -notation-overridden,-deprecated-hint-without-locality,-deprecated-instance-without-locality
+"""
+
+
+def write_coqproject():
+    """_CoqProject lists every .v file of the four directories (coq_makefile orders them by
+    coqdep); rewritten only when the set of files changed."""
+    text = PROJECT_HEADER + "".join(r + "\n" for r in coq_sources())
+    cp = os.path.join(COQ, "_CoqProject")
+    old = open(cp).read() if os.path.exists(cp) else None
+    if old != text:
+        with open(cp, "w") as f:
+            f.write(text)
+        return True
+    return False
+
+
 def coq_build(jobs=16):
-    """Full .vo build of the development under a lock; returns (ok, log)."""
+    """Full .vo build of the development under a lock (make -k: a file that no longer
+    compiles stops only what depends on it); returns (all_ok, log)."""
     os.makedirs(WORK, exist_ok=True)
     with open(os.path.join(WORK, "build.lock"), "w") as lk:
         fcntl.flock(lk, fcntl.LOCK_EX)
-        # _CoqProject lists the files explicitly; regenerate the Makefile when it changed
+        changed = write_coqproject()
         mk = os.path.join(COQ, "Makefile")
-        cp = os.path.join(COQ, "_CoqProject")
-        if (not os.path.exists(mk)) or os.path.getmtime(mk) < os.path.getmtime(cp):
+        if changed or not os.path.exists(mk):
             rc, out = sh(["coq_makefile", "-f", "_CoqProject", "-o", "Makefile"], cwd=COQ)
             if rc != 0:
                 return False, out
-        rc, out = sh(["timeout", "1500", "make", f"-j{jobs}"], cwd=COQ, timeout=1600)
+        rc, out = sh(["timeout", "2400", "make", "-k", f"-j{jobs}"], cwd=COQ, timeout=2500)
         return rc == 0, out
+
+
+def vo_fresh(rel):
+    """rel (a .v path relative to coq/) and everything it requires has an up-to-date .vo"""
+    for r in requires_closure(rel):
+        src = os.path.join(COQ, r)
+        vo = src[:-2] + ".vo"
+        if not os.path.exists(vo) or os.path.getmtime(vo) < os.path.getmtime(src):
+            return False
+    return True
 
 
 def coqc_file(rel, timeout=300):
